@@ -1,10 +1,13 @@
 (* C18 — every attribute/tag value type round-trips through its own text form.  Proved for the
-   integer-, hex- and table-based types; the float types (Float, UFloat, durations) and the
-   composite tags rest on the float text conversions of Rust's std, which are modelled and
+   integer-, hex- and table-based types and for EVERY TAG (C18_tags_*: the printed line goes through
+   `tag`, the attribute tokenizer and the tag's own parser and gives the value back, for every
+   well-formed value).  The float types (Float, UFloat, durations) enter the tag theorems through
+   decidable hypotheses on the modelled std conversions (float_rt, ufloat_rt, dur_rt), which are
    validated by the correspondence check and a sweep, not proved (open, see evidence). *)
 From hls Require Import Base Float Lex Kinds Types Tags Line Keys Media.
 From hls.Generated Require Import Tables.
-From hls.Proofs Require Import Build Lexical Values.
+From hls Require Import Master.
+From hls.Proofs Require Import Build Lexical Values TextLines AttrText TagText TagTextMedia TagTextVariant TagTextSegment TagTextDateRange.
 Open Scope N_scope.
 
 Theorem C18_uint : forall w n, n < 2 ^ w -> parse_uint w (print_uint n) = Some n.
@@ -92,6 +95,108 @@ Proof.
 Qed.
 Check C18_ufloat_accepts : forall s x, parse_ufloat s = Ok x -> f_is_finite x = true /\ f_is_neg x = false.
 Print Assumptions C18_ufloat_accepts.
+
+(* ---------- composite values ---------- *)
+Theorem C18_composites :
+  (forall f, kf_wf f = true -> parse_key_format (quote (print_key_format f)) = f)
+  /\ (forall v, kfv_wf v = true -> parse_kfv (print_kfv v) = Ok v)
+  /\ (forall c, cc_wf c = true -> parse_cc (print_cc c) = c)
+  /\ (forall c, wf_codecs c = true -> parse_codecs (unquote (quote (print_codecs c))) = c)
+  /\ (forall v, wf_value v = true -> parse_value (print_value v) = Ok v)
+  /\ (forall k, wf_key k = true -> parse_decryption_key (print_decryption_key k) = Ok k).
+Proof.
+  repeat split.
+  - exact key_format_text. - exact kfv_text. - exact cc_text. - exact codecs_text. - exact value_text.
+  - exact decryption_key_text.
+Qed.
+Check C18_composites :
+  (forall f, kf_wf f = true -> parse_key_format (quote (print_key_format f)) = f)
+  /\ (forall v, kfv_wf v = true -> parse_kfv (print_kfv v) = Ok v)
+  /\ (forall c, cc_wf c = true -> parse_cc (print_cc c) = c)
+  /\ (forall c, wf_codecs c = true -> parse_codecs (unquote (quote (print_codecs c))) = c)
+  /\ (forall v, wf_value v = true -> parse_value (print_value v) = Ok v)
+  /\ (forall k, wf_key k = true -> parse_decryption_key (print_decryption_key k) = Ok k).
+Print Assumptions C18_composites.
+
+(* ---------- every tag of a master playlist ---------- *)
+Theorem C18_tags_master :
+  (forall m, wf_xmedia m = true -> parse_xmedia (print_xmedia m) = Ok m)
+  /\ (forall u fr au su cc sd, wf_variant (VStreamInf u fr au su cc sd) = true ->
+        parse_streaminf (streaminf_line fr au su cc sd) u = Ok (VStreamInf u fr au su cc sd))
+  /\ (forall u sd, wf_variant (VIFrame u sd) = true -> parse_iframe (print_variant (VIFrame u sd)) = Ok (VIFrame u sd))
+  /\ (forall d, wf_sdata d = true -> parse_session_data (print_session_data d) = Ok d)
+  /\ (forall k, wf_key k = true -> parse_session_key (print_session_key k) = Ok k)
+  /\ (forall s, wf_start s = true -> parse_start (print_start s) = Ok s).
+Proof.
+  repeat split.
+  - intros m H. apply (xmedia_text m H).
+  - intros. apply (streaminf_text u fr au su cc sd H).
+  - intros u sd H. apply (iframe_text u sd H).
+  - intros d H. apply (session_data_text d H).
+  - intros k H. apply (session_key_text k H).
+  - intros s H. apply (start_text s H).
+Qed.
+Check C18_tags_master :
+  (forall m, wf_xmedia m = true -> parse_xmedia (print_xmedia m) = Ok m)
+  /\ (forall u fr au su cc sd, wf_variant (VStreamInf u fr au su cc sd) = true ->
+        parse_streaminf (streaminf_line fr au su cc sd) u = Ok (VStreamInf u fr au su cc sd))
+  /\ (forall u sd, wf_variant (VIFrame u sd) = true -> parse_iframe (print_variant (VIFrame u sd)) = Ok (VIFrame u sd))
+  /\ (forall d, wf_sdata d = true -> parse_session_data (print_session_data d) = Ok d)
+  /\ (forall k, wf_key k = true -> parse_session_key (print_session_key k) = Ok k)
+  /\ (forall s, wf_start s = true -> parse_start (print_start s) = Ok s).
+Print Assumptions C18_tags_master.
+
+(* ---------- every tag of a media playlist ---------- *)
+Theorem C18_tags_media :
+  (forall k, match k with Some d => wf_key d = true | None => True end -> parse_xkey (print_xkey k) = Ok k)
+  /\ (forall m, wf_xmap m = true ->
+        parse_xmap (print_xmap m) = Ok {| map_uri := map_uri m; map_range := map_range m; map_keys := [] |})
+  /\ (forall r, wf_range r = true -> parse_xbyterange (print_xbyterange r) = Ok r)
+  /\ (forall i, wf_extinf i = true -> parse_extinf (print_extinf i) = Ok i)
+  /\ (forall d, wf_daterange d = true -> parse_daterange (print_daterange d) = Ok d)
+  /\ (forall s, good_line (print_pdt s) = true -> parse_pdt (print_pdt s) = Ok s)
+  /\ (forall n, n < two64 -> parse_target_duration (pfx_ExtXTargetDuration ++ print_uint n) = Ok n)
+  /\ (forall n, n < two64 -> parse_media_sequence (pfx_ExtXMediaSequence ++ print_uint n) = Ok n)
+  /\ (forall n, n < two64 -> parse_disc_sequence (pfx_ExtXDiscontinuitySequence ++ print_uint n) = Ok n)
+  /\ (forall t, t < 2 -> parse_playlist_type (print_playlist_type t) = Ok t)
+  /\ (forall v, 1 <= v <= 7 -> parse_version (pfx_ExtXVersion ++ print_protocol_version v) = Ok v).
+Proof.
+  repeat split.
+  - intros k H. apply (xkey_text k H).
+  - intros m H. apply (xmap_text m H).
+  - intros r H. apply (xbyterange_text r H).
+  - intros i H. apply (extinf_text i H).
+  - intros d H. apply (daterange_text d H).
+  - exact pdt_text.
+  - intros n H. apply (target_duration_text n H).
+  - intros n H. apply (media_sequence_text n H).
+  - intros n H. apply (disc_sequence_text n H).
+  - intros t H. apply (playlist_type_text t H).
+  - exact version_text.
+Qed.
+Check C18_tags_media :
+  (forall k, match k with Some d => wf_key d = true | None => True end -> parse_xkey (print_xkey k) = Ok k)
+  /\ (forall m, wf_xmap m = true ->
+        parse_xmap (print_xmap m) = Ok {| map_uri := map_uri m; map_range := map_range m; map_keys := [] |})
+  /\ (forall r, wf_range r = true -> parse_xbyterange (print_xbyterange r) = Ok r)
+  /\ (forall i, wf_extinf i = true -> parse_extinf (print_extinf i) = Ok i)
+  /\ (forall d, wf_daterange d = true -> parse_daterange (print_daterange d) = Ok d)
+  /\ (forall s, good_line (print_pdt s) = true -> parse_pdt (print_pdt s) = Ok s)
+  /\ (forall n, n < two64 -> parse_target_duration (pfx_ExtXTargetDuration ++ print_uint n) = Ok n)
+  /\ (forall n, n < two64 -> parse_media_sequence (pfx_ExtXMediaSequence ++ print_uint n) = Ok n)
+  /\ (forall n, n < two64 -> parse_disc_sequence (pfx_ExtXDiscontinuitySequence ++ print_uint n) = Ok n)
+  /\ (forall t, t < 2 -> parse_playlist_type (print_playlist_type t) = Ok t)
+  /\ (forall v, 1 <= v <= 7 -> parse_version (pfx_ExtXVersion ++ print_protocol_version v) = Ok v).
+Print Assumptions C18_tags_media.
+
+(* the float hypotheses hold for sample values (decidable, evaluated) *)
+Example C18_float_hypotheses :
+  forallb (fun s => match parse_float s with Ok x => float_rt x | _ => false end)
+          [lit "0"; lit "-3.5"; lit "1.5"; lit "29.97"; lit "100000.125"; lit "-0.001"] = true
+  /\ forallb (fun s => match parse_ufloat s with Ok x => ufloat_rt x | _ => false end)
+          [lit "0"; lit "29.97"; lit "59.94"; lit "60"; lit "23.976"; lit "120.5"] = true
+  /\ forallb dur_rt [0; 1; 999999999; 1000000000; 9500000000; 2002000000; 10010000000; 999999999999999] = true.
+Proof. vm_compute. repeat split. Qed.
 
 Example C18_example :
   parse_byte_range (print_byte_range {| br_start := Some 5; br_end := 18446744073709551615 |})
